@@ -533,7 +533,9 @@ def specStmt (v : String) (sd : SD) (st : SSt) (s : Stmt) (res : String) : Strin
     | some sh =>
       if res == "na" then ("ok", st) else
       match shownOf sd sh.win pos with
-      | none => ("ok", st)
+      | none =>
+        -- too large to enumerate: not judged — and whatever was requested counts as asked about
+        ("ok", bump st (pos.foldl (fun a t => match t with | .add p => max a p | .addRange _ e => max a e) 0))
       | some (shown, endP) =>
         let want := layoutFor v false o endP shown
         let r : Int := match shown.getLast? with | some (p, _) => p | none => st.reach
